@@ -140,9 +140,9 @@ class Ctx:
         v = self.violations.get(mechanism)
         if v is None:
             self.violations[mechanism] = {
-                'count': 1, 'message': message,
+                'count': 1, 'message': message + (' [interpreter without assert statements: PYTHONOPTIMIZE=1]' if sys.flags.optimize else ''),
                 'case': jsonable(case if case is not None else self.current_case),
-                'witness': jsonable(witness)}
+                'witness': jsonable(witness), 'optimize': int(sys.flags.optimize)}
         else:
             v['count'] += 1
 
@@ -278,6 +278,8 @@ def finish(ctx, mod, write_evidence=True):
             ctx.inconclusive_because(f'deciding monitor {name} was never evaluated')
     required = getattr(mod, 'REQUIRED_CLASSES', {})
     required = required.get(ctx.tier, required.get('all', ())) if isinstance(required, dict) else required
+    if ctx.extra.get('asserts_stripped_sample'):
+        required = tuple(required) + ('interpreter:assert-statements-stripped',)
     for name in required:
         if ctx.classes.get(name, 0) == 0:
             ctx.inconclusive_because(f'input class {name} was never reached')
@@ -299,7 +301,7 @@ def finish(ctx, mod, write_evidence=True):
         with open(rpath, 'w') as fh:
             json.dump({'property': ctx.prop, 'mechanism': mech, 'message': v['message'],
                        'count_in_run': v['count'], 'seed': ctx.seed, 'tier': ctx.tier,
-                       'case': v['case'], 'witness': v['witness']}, fh, indent=1)
+                       'case': v['case'], 'witness': v['witness'], 'optimize': v.get('optimize', 0)}, fh, indent=1)
         rel = os.path.relpath(rpath, VERIF)
         lines.append(f"VIOLATION property={ctx.prop} replay={rel} mechanism={mech} "
                      f"count={v['count']} :: {v['message'][:300]}")
